@@ -22,7 +22,7 @@ fn fixed_cases() -> Vec<Vec<Step>> {
 pub fn spec() -> HistSpec {
     HistSpec {
         id: "C04",
-        rule: "random histories of 1..40 sorted-set commands (scores drawn to collide: equal, -0, +-inf, neighbours, NaN/invalid in any position), compared step by step with an ordered (score, member bytes) model, canonical ZRANGE WITHSCORES dump after every refused command and at the end; non-trivial = a re-score or an equal-score tie together with at least one removal; distinct by hash of the command list",
+        rule: "A (in-process): generated insert/re-score/remove/range sequences of 1..120 ops on SkipList<Vec<u8>, f64> (12 members, 14 colliding scores), each run 4 times (random tower heights), checked after every op by the cfg(ferrous_verif) structural invariant walker and an ordered model through all public queries; non-trivial = a re-score that moved a member or an equal-score tie, plus a removal from a non-empty list. B: random histories of 1..40 sorted-set commands (scores drawn to collide: equal, -0, +-inf, neighbours, NaN/invalid in any position), compared step by step with an ordered (score, member bytes) model, canonical ZRANGE WITHSCORES dump after every refused command and at the end; non-trivial = a re-score or an equal-score tie together with at least one removal; distinct by hash of the command list",
         cmd: || crate::gen::with_arity_noise(crate::gen::c04_cmd()),
         history: None,
         max_len: 40,
@@ -33,6 +33,8 @@ pub fn spec() -> HistSpec {
         excluder,
         fixed_cases,
         label_floors: vec![("rescore", 200), ("equal-scores", 200), ("zremoved", 200), ("bad-score", 100), ("refused-multi-zadd", 30), ("inf-bound", 50), ("reversed-bounds", 50), ("key-emptied", 50)],
+        pre_phase: Some(super::c04a::phase),
+        pre_replay: Some(super::c04a::replay),
         assumptions: vec!["scores compare numerically (parsed f64, -0 == 0), not as text", "ZPOPMIN/ZPOPMAX on a missing key may answer a nil or an empty array"],
     }
 }
